@@ -75,7 +75,7 @@ LISTED_BY = {
 
 
 def is_listed(strategy, name):
-    if strategy is None or name in ('ok', 'ok_empty', 'notif_reply_listed', 'elem_listed'):
+    if strategy is None or name in ('ok', 'ok_empty', 'notif_reply_listed', 'elem_listed', 'elem_error'):
         return False
     kind, what = LISTED_BY[name]
     if kind == 'code':
@@ -121,6 +121,10 @@ def final_matches(cfg, obs, name, k):
         if rk == 'batch':
             return kind == 'ok' and v == ({'attempt': k, 'id': 1}, {'attempt': k, 'id': 2})
         return kind == 'ok' and v == {'attempt': k, 'id': 1}
+    if name == 'elem_error':
+        if via_send:
+            return kind == 'ok' and isinstance(v, BatchResponse) and v[1].is_error and v[1].error.code == cr.CU
+        return kind == 'exc' and isinstance(v, JsonRpcError) and v.code == cr.CU
     if name == 'elem_listed':
         # a response array is an answered batch whatever its elements say: batch.call raises the element's error, nothing is re-sent
         if via_send:
